@@ -22,6 +22,19 @@ from vf import gens
 from vf.oracles import RefCS
 from vf.runner import Outcome, Prop, Sub, Violation
 
+# Safety net: a dead worker makes multiprocessing.Pool wait forever.  Cap the address space of
+# this process tree (baseline ~0.8 GB) so that a runaway allocation in the code under test
+# surfaces as a MemoryError (reported as a crash) instead of an OOM-killed worker.
+try:
+    import resource as _resource
+
+    _soft, _hard = _resource.getrlimit(_resource.RLIMIT_AS)
+    _cap = 12 * 2**30
+    if _soft == _resource.RLIM_INFINITY or _soft > _cap:
+        _resource.setrlimit(_resource.RLIMIT_AS, (_cap, _hard))
+except (ImportError, ValueError, OSError):  # pragma: no cover
+    pass
+
 ALL_DTYPES = ("float64", "float32", "uint8", "uint16", "bool")
 FLOATS = ("float64", "float32")
 CVTYPES = ("float64", "float32", "uint8", "uint16")
@@ -285,6 +298,7 @@ class Watch:
         self.snaps[role] = snap(obj)
 
     def changed(self, roles=None):
+        """First (role, field, description) whose snapshot no longer matches; None if all match."""
         for role in (roles if roles is not None else self.objs):
             d = snap_diff(self.snaps[role], snap(self.objs[role]))
             if d is not None:
@@ -313,7 +327,7 @@ def execute(name, call, tags, watch=None):
         raised = e
         res = None
     # 1. arguments exactly as they were (also when the call raised)
-    ch = w.changed(roles) or w.changed()
+    ch = w.changed()
     if ch is not None:
         role, field, desc = ch
         how = f" (the call raised {type(raised).__name__})" if raised is not None else ""
@@ -1219,6 +1233,19 @@ def _plain2d(x):
     return x.space_dim == 2 and x.scalar and not x.series
 
 
+def _superposable(x, y):
+    """Both plain 2-D float images of one class, and a common canvas of bounded size (images whose
+    origins lie far apart would make superpose allocate the whole gap)."""
+    if not (_plain2d(x) and _plain2d(y) and _flt(x) and x.img.dtype == y.img.dtype and type(x) is type(y)
+            and x.original_dtype == y.original_dtype and min(x.num_voxels + y.num_voxels) >= 2):
+        return False
+    corners = np.array([np.asarray(i.origin, dtype=float) for i in (x, y)]
+                       + [np.asarray(i.opposite_corner, dtype=float) for i in (x, y)])
+    ext = corners.max(axis=0) - corners.min(axis=0)  # Cartesian (x, y) extent of the union
+    h = np.minimum(np.asarray(x.voxel_size, dtype=float), np.asarray(y.voxel_size, dtype=float))
+    return bool(np.all(h > 0) and (ext[1] / h[0]) * (ext[0] / h[1]) <= 4096.0)
+
+
 # name -> (arity, applicable(*imgs), fn(imgs, k) , tolerated)
 CHAIN_OPS = {
     "add": (2, _same, lambda x, y, k: x + y, REJ_T),
@@ -1247,10 +1274,7 @@ CHAIN_OPS = {
     "stack": (2, lambda x, y: not y.series and x.scalar == y.scalar and x.space_dim == y.space_dim
               and x.num_voxels == y.num_voxels and x.img.shape[x.space_dim + x.time_dim:] == y.img.shape[y.space_dim:],
               lambda x, y, k: darsia.stack([x, y]), REJ + (TypeError,)),
-    "superpose": (2, lambda x, y: _plain2d(x) and _plain2d(y) and _flt(x) and x.img.dtype == y.img.dtype
-                  and type(x) is type(y) and x.original_dtype == y.original_dtype
-                  and min(x.num_voxels + y.num_voxels) >= 2,
-                  lambda x, y, k: darsia.superpose([x, y]), REJ_CV),
+    "superpose": (2, _superposable, lambda x, y, k: darsia.superpose([x, y]), REJ_CV),
     "resize(fx,fy)": (1, _cvok, lambda x, k: darsia.resize(x, fx=0.5 * (k + 1), fy=2.0), REJ_CV),
     "uniform_refinement": (1, lambda x: x.img.dtype.kind in "fu" and max(x.num_voxels) <= 12,
                            lambda x, k: darsia.uniform_refinement(x, 1 if k % 2 else -1), REJ_T),
@@ -1292,7 +1316,11 @@ def check_chains(case):
     ran = 0
     labels = []
     for n, stp in enumerate(case["steps"]):
-        arity, ok, fn, tol = CHAIN_OPS[stp["op"]]
+        arity, ok0, fn, tol = CHAIN_OPS[stp["op"]]
+
+        def ok(*xs, _ok0=ok0):  # results of earlier steps may have grown: keep every operand small
+            return all(x.img.size <= 50000 for x in xs) and _ok0(*xs)
+
         # first applicable operand tuple, scanning the pool cyclically from the drawn indices
         chosen = None
         L = len(pool)
@@ -1497,6 +1525,11 @@ _RULE = ("registry: one case = (call form, Hypothesis-drawn operands of every im
          "scalar; distinct = the case")
 
 
+# measured on an idle 16-core box the quick tier needs ~25 s wall (~5 min CPU incl. 19 worker
+# start-ups); the budgets leave room for a machine shared with other checks
+_BUDGET = {"quick": 600.0, "thorough": 3000.0}
+
+
 def _reg_subs():
     # quick: ~300 cases per call form; thorough x20
     n = {"arithmetic": (8000, 160000), "conversion": (14000, 280000), "extraction": (3000, 60000),
@@ -1508,7 +1541,7 @@ def _reg_subs():
     for g in GROUPS:
         out.append(Sub(f"registry_{g}", check_registry, gen=group_gen(g),
                        n={"quick": n[g][0], "thorough": n[g][1]},
-                       shards={"quick": sh[g], "thorough": 16},
+                       shards={"quick": sh[g], "thorough": 16}, budget_s=_BUDGET,
                        rule=f"{sum(1 for f in FORMS.values() if f.group == g)} call forms"))
     return out
 
@@ -1530,8 +1563,8 @@ PROP = Prop(
     ],
     subs=_reg_subs() + [
         Sub("chains", check_chains, gen=gen_chains, n={"quick": 3000, "thorough": 60000},
-            shards={"quick": 2, "thorough": 16}),
+            shards={"quick": 2, "thorough": 16}, budget_s=_BUDGET),
         Sub("arithmetic_agrees", check_arith, gen=gen_arith, n={"quick": 2000, "thorough": 40000},
-            shards={"quick": 1, "thorough": 16}),
+            shards={"quick": 1, "thorough": 16}, budget_s=_BUDGET),
     ],
 )
